@@ -36,7 +36,11 @@ res = {}
 try:
     for c in checks:
         t0 = time.time()
+        # the evidence file describes runs against /repo itself: keep it across a run against a seeded tree
+        evf = os.path.join(V, "evidence", c + ".json")
+        saved = open(evf).read() if os.path.exists(evf) else None
         p = subprocess.run([os.path.join(V, "check"), c, "--tier", tier], cwd=V, capture_output=True, text=True, env=env)
+        if saved is not None: open(evf, "w").write(saved)
         viol = [l for l in p.stdout.split("\n") if l.startswith("VIOLATION")]
         res[c] = {"exit": p.returncode, "violation_lines": viol[:5], "n_violation_lines": len(viol), "wall_s": round(time.time() - t0, 1), "tier": tier}
         # keep the first replay as evidence of what caught it
